@@ -94,6 +94,9 @@ def run(ctx, pid, prop_mods, oracles, progs, rule, trusted=(), assumptions=(), p
             nontriv += 1
     if post:
         post(ctx, recs, failures)
+    # the same programs through every entry point and distributed over real include files (vf/incwrap.py)
+    from . import incwrap as IW
+    IW.through_entry_points(ctx, pid, [r["text"] for r in recs if not r["ast"].startswith(("PANIC", "CRASH", "HANG"))], failures)
     failures.sort(key=lambda f: len(f["case"]))
     C.decide(ctx, failures, C.load_findings(pid))
     ctx.coverage.update({
